@@ -202,8 +202,13 @@ def oracle_c11(ck, ctx, run):
         return
     if run.exc not in (None, "test", "CapHit", "Hang") and not any(a == "R" for _, _, a in run.seen):
         # the run ended with an exception although no test raised: there is no exit status at all
+        # known finding: the experimental move trips its own `assert ... chunk_mid_start ...` right after a move was accepted
+        acc = [d for _, d, a in run.seen if a == "Y"]
+        moved = len(acc) >= 2 and acc[-1] != acc[-2] and sorted(acc[-1].splitlines(True)) == sorted(acc[-2].splitlines(True))
+        key = "move-assertion-error" if (ctx["strategy"] == "minimize-balanced" and ctx["cfg"].get("move")
+                                         and run.exc == "AssertionError" and moved and run.seen[-1][2] == "Y") else None
         ck.violation(f"{ctx['strategy']}: the run ended with {run.exc} instead of an exit status (tests={run.tests}, "
-                     f"a later candidate accepted = {any(a == 'Y' for _, _, a in run.seen[1:])})", replay_doc(ctx, run))
+                     f"a later candidate accepted = {any(a == 'Y' for _, _, a in run.seen[1:])})", replay_doc(ctx, run), key=key)
         return
     if run.exc is not None or not run.seen:
         if run.exc is None and not run.seen and ctx["strategy"] != "check-only":
